@@ -17,9 +17,15 @@ type cell struct {
 	name string
 	fv   *ssa.FreeVar
 	fld  *types.Var
+	// param: the cell is (also) reached through this pointer parameter of a helper that is handed the cell's address
+	// (`c.remainder.whole(rate)` with `func (r *carry) whole(rate float64) int`)
+	param *ssa.Parameter
 }
 
 func (k cell) addrIs(v ssa.Value) bool {
+	if k.param != nil && v == ssa.Value(k.param) {
+		return true
+	}
 	if k.fv != nil {
 		return v == ssa.Value(k.fv)
 	}
